@@ -117,9 +117,9 @@ def build(params: Any) -> tuple:
             ("clock", [("tick",)] * 4),
         ]
     guards = {
-        "started": lambda w: any(l[2].startswith("Running on") for l in w.logrec),
-        "after_shutdown": lambda w: w.shutdown_at is not None,
-        "both_done": lambda w: sum(1 for i in w.instances if i.type == "http" and len(i.sends) >= 1) >= 2,
+        "started": lambda w, ev=None: any(l[2].startswith("Running on") for l in w.logrec),
+        "after_shutdown": lambda w, ev=None: w.shutdown_at is not None,
+        "both_done": lambda w, ev=None: sum(1 for i in w.instances if i.type == "http" and len(i.sends) >= 1) >= 2,
     }
     sc = {"level": "serve", "client_factory": make_client, "apps": apps, "config": cfg, "sources": sources,
           "trio_rev": True, "guards": guards}
